@@ -170,6 +170,29 @@ theorem unauth_request_inert (P : Prims) (ufrag pwd : Bytes) (s : St) (sock : So
       · simp [step, Inert]
     · simp [step, Inert]
 
+/-- **first_message_integrity_decides** (the malformed-credential shapes, for all values): in a datagram
+`20-byte header ++ attributes without MESSAGE-INTEGRITY ++ MESSAGE-INTEGRITY(value v) ++ anything`, the check
+passes only if `v` is exactly 20 bytes and equals the HMAC under the local password of the bytes before it
+(length field rewritten). Hence a zero-length value, any 1..19-byte prefix of the right HMAC, 21 / 24-byte
+values, a second (even correct) MESSAGE-INTEGRITY after a wrong first one, or anything placed after the
+attribute can never make an otherwise unauthenticated request pass. -/
+theorem first_message_integrity_decides (P : Prims) (ufrag pwd hdr : Bytes) (pre : List (Nat × Bytes)) (v rest : Bytes)
+    (hh : hdr.length = 20) (hb : ∀ p ∈ pre, p.1 < 65536 ∧ p.2.length < 65536 ∧ p.1 ≠ 8) (hv : v.length < 65536)
+    (hbad : v.length ≠ 20 ∨ v ≠ P.hmac pwd (writeLen (hdr ++ StunRfc.flat pre) ((StunRfc.flat pre).length + 24))) :
+    codeAuth P ufrag pwd (hdr ++ StunRfc.flat pre ++ (tlv 8 v ++ rest)) = false := by
+  apply codeAuth_le_verifyMI
+  unfold verifyMI
+  have hd : (hdr ++ StunRfc.flat pre ++ (tlv 8 v ++ rest)).drop 20 = StunRfc.flat pre ++ (tlv 8 v ++ rest) := by
+    rw [List.append_assoc]; exact C16Bytes.drop_append_len hh
+  have ht : (hdr ++ StunRfc.flat pre ++ (tlv 8 v ++ rest)).take (20 + (StunRfc.flat pre).length) = hdr ++ StunRfc.flat pre :=
+    C16Bytes.take_append_len (by simp [hh])
+  rw [hd]
+  rw [verifyLoop_first_mi P pwd _ 20 pre v rest hb hv, ht]
+  rcases hbad with h | h
+  · simp [h]
+  · have e : 20 + (StunRfc.flat pre).length - 20 + 24 = (StunRfc.flat pre).length + 24 := by omega
+    rw [e]; simp [h]
+
 /-- non-vacuity of `unauth_request_inert`: e.g. no datagram shorter than 24 bytes carries credentials -/
 example (P : Prims) (ufrag pwd : Bytes) : ¬ Credentials P ufrag pwd [0, 1, 0, 0] := by
   intro ⟨_, off, mac, ⟨hb, t0, t1, l0, l1, body, hd, _⟩, _⟩
